@@ -106,6 +106,7 @@ pub fn run(outdir: &str, seed: u64, thorough: bool) -> serde_json::Value {
     while made < n && attempts < n * 20 {
         attempts += 1;
         let mut r = rng.fork();
+        let mut ordered = false;
         // three kinds of relations: the supported fragment, DP rewritings, odd identifiers
         let (sql, rel, relations, class): (String, Relation, &Hierarchy<Arc<Relation>>, &str) = if attempts <= WEIRD.len() {
             let sql = WEIRD[attempts - 1].to_string();
@@ -122,7 +123,10 @@ pub fn run(outdir: &str, seed: u64, thorough: bool) -> serde_json::Value {
             let depth = r.range(0, 2) as u32;
             let k = attempts - WEIRD.len() - dp_targeted.len();
             let frag_targeted = ["SELECT VARIANCE(t.amount) AS v, AVG(t.amount) AS m FROM orders AS t", "SELECT t.status AS k, STDDEV(t.amount) AS s FROM orders AS t GROUP BY t.status"];
-            let sql = if k >= 1 && k <= frag_targeted.len() { frag_targeted[k - 1].to_string() } else { let mut g = QGen::new(&mut r, &w.specs); g.query(depth).0 };
+            let sql = if k >= 1 && k <= frag_targeted.len() { frag_targeted[k - 1].to_string() } else {
+                let (q0, cols) = { let mut g = QGen::new(&mut r, &w.specs); g.query(depth) };
+                let is_set = q0.contains(" UNION ") || q0.contains(" INTERSECT ") || q0.contains(" EXCEPT ");
+                if is_set { q0 } else { let (q, o) = crate::c08::decorate(&mut r, &q0, &cols); ordered = o; q } };
             let Ok(Ok(rel)) = catch_unwind(AssertUnwindSafe(|| to_relation(&w, &sql))) else { continue };
             (sql, rel, &w.relations, "fragment")
         };
@@ -144,12 +148,16 @@ pub fn run(outdir: &str, seed: u64, thorough: bool) -> serde_json::Value {
                 st.bump("translated_sqlite");
                 if let Err(e) = parse_with_dialect(&text, SQLiteDialect {}) { st.violation(json!({"kind":"translated-sql-rejected-by-the-dialect-parser","dialect":"sqlite","class":class,"construct":construct_of(&e.to_string()),"query":sql,"error":e.to_string()})); }
                 if class == "fragment" {
-                    let data = gen_data(&mut r, &w.specs, 8);
+                    // the original text and the SQLite translation on the same database (as C08 does for the default rendering)
+                    let data = gen_data(&mut r, &w.specs, 10);
                     let db = Db::new(&w.specs, &data);
-                    match (db.query(&render(&rel)), db.query(&text)) {
-                        (Ok((_, a)), Ok((_, b))) => { st.bump("executed_on_sqlite"); if !sql.to_uppercase().contains("LIMIT") && bag(&a) != bag(&b) { st.violation(json!({"kind":"sqlite-translation-returns-other-rows","dialect":"sqlite","class":class,"query":sql})); } }
+                    match (db.query(&sql), db.query(&text)) {
+                        (Ok((an, a)), Ok((bn, b))) => { st.bump("executed_on_sqlite");
+                            let same_order = !ordered || a.iter().zip(b.iter()).all(|(x, y)| x.iter().map(|v| v.canon()).collect::<Vec<_>>() == y.iter().map(|v| v.canon()).collect::<Vec<_>>());
+                            if an != bn || bag(&a) != bag(&b) || !same_order { st.violation(json!({"kind":"sqlite-translation-returns-other-rows","dialect":"sqlite","class":class,"query":sql,"translated":text.chars().take(600).collect::<String>(),
+                                "original_count":a.len(),"translated_count":b.len(),"original_columns":an,"translated_columns":bn})); } }
                         (Ok(_), Err(e)) => { st.violation(json!({"kind":"sqlite-translation-not-executable","dialect":"sqlite","class":class,"construct":e.chars().take(40).collect::<String>(),"query":sql,"error":e.chars().take(200).collect::<String>(),"translated":text.chars().take(400).collect::<String>()})); }
-                        _ => { st.bump("reference_not_executable"); }
+                        _ => { st.bump("original_not_executable_on_sqlite"); }
                     }
                 }
             }
